@@ -250,6 +250,57 @@ def run(tier):
                 fnd.add("program-not-wf", {"what": "compiled program is not structurally well formed: " + why,
                                            "template": case[which], "commandList": p["cmds"], "symbolTable": p["sym"],
                                            "macros": p["macros"]}, len(case[which]))
+
+    # ---------------- oracle (a'): templates SERVED by the real TALFileHandler ----------------
+    # request -> GopherRequestHandler -> HandlerMultiplexer -> TALFileHandler (canhandlerequest, getentry, write): the
+    # response is the UTF-8 encoding of what the reference evaluator writes for the file under the handler's context
+    # (selector, talbasename, allowpythonpath)
+    SERVED_NAMES = ["selector", "talbasename", "allowpythonpath"]
+    sopts = talgen.GenOpts(maxdepth=min(maxdepth, 4), structure=True, metal=False)
+    served = []
+    for i in range(150 if thorough else 40):
+        nodes, _ = talgen.gen_template(rng, sopts, ctx_names=SERVED_NAMES)
+        if i % 3 == 0:
+            nodes.append(talgen.Elem("p", attrs=[("title", "\u00e9")], tal={"content": "string:${selector} Gr\u00fc\u00df \u2713"},
+                                     children=[talgen.Text("x")]))
+        served.append(nodes)
+    stree = [{"path": "t%d.html.tal" % i, "data": talgen.serialize(nodes).encode("utf-8").decode("latin-1"), "mtime": 1700000000}
+             for i, nodes in enumerate(served)]
+    sres = impl_run([{"op": "tal_handler", "worlds": [{
+        "tree": stree, "config": {"handlers.HandlerMultiplexer": {"handlers": "[tal.TALFileHandler, file.FileHandler, dir.DirHandler]"}},
+        "selectors": ["/t%d.html.tal" % i for i in range(len(served))], "label": "served"}]}])[0]
+    if not sres["ok"]:
+        raise RuntimeError(sres["err"] + sres.get("tb", ""))
+    served_stats = {"templates": len(served), "match": 0, "cosmetic": 0, "out_of_scope": 0, "mismatch": 0}
+    for i, (nodes, h) in enumerate(zip(served, sres["res"])):
+        sel = "/t%d.html.tal" % i
+        scase = {"main": talgen.serialize(nodes), "lib": None, "options": None, "allow_python": 0,
+                 "ctx": {"selector": ["s", sel], "talbasename": ["s", sel[:-4]], "allowpythonpath": ["n", 1]}}
+        try:
+            exp = tc.reference(scase, nodes, None)
+        except talref.OutOfScope:
+            served_stats["out_of_scope"] += 1
+            continue
+        try:
+            got = h["out"].encode("latin-1").decode("utf-8")
+        except UnicodeDecodeError:
+            got = None
+        chk.count(("served", scase["main"]), nontrivial=True)
+        if h["exc"] is None and got == exp:
+            served_stats["match"] += 1
+        elif h["exc"] is None and got is not None and talref.canon(got) == talref.canon(exp):
+            served_stats["cosmetic"] += 1
+        else:
+            served_stats["mismatch"] += 1
+            found = True
+            fnd.add("expand-served", {"what": "a .html.tal file served through TALFileHandler is not the UTF-8 encoding of the expansion "
+                                              "TAL defines for it under the handler's context (selector, talbasename, allowpythonpath)",
+                                      "file_utf8": scase["main"], "selector": sel, "expected": exp, "response_latin1": h["out"],
+                                      "exception": h["exc"], "tree": talgen.tree_json(nodes)}, len(scase["main"]))
+    if served_stats["match"] + served_stats["cosmetic"] == 0:
+        found = True
+        chk.violation({"what": "served-template leg did not serve anything (harness problem)", "stats": served_stats,
+                       "first": sres["res"][:1]}, tag=None, no_input=True)
     fnd.flush()
 
     # ---------------- K: wf_program on the real programs, inside Coq ----------------
@@ -389,7 +440,7 @@ def run(tier):
         "repeat_variable_cases": len(pairs), "repeat_variable_mismatches": len(mism_r),
         "errors": [e for e in (err, err_t, err_r, err_c, err_e, err_s, err_f) if e],
     }
-    cov["oracle"] = {"templates": len(cases), "status": stats, "programs_not_wf": notwf,
+    cov["oracle"] = {"templates": len(cases), "status": stats, "served_through_TALFileHandler": served_stats, "programs_not_wf": notwf,
                      "depth_histogram": {str(k): v for k, v in sorted(depth_hist.items())},
                      "distinct_command_sets_per_element": len(cmdsets),
                      "command_set_examples": sorted(cmdsets.items(), key=lambda kv: -kv[1])[:12],
